@@ -6,8 +6,11 @@ export VERIF_NO_EVIDENCE=1   # evidence files describe runs on the unchanged tre
 REPO=${VERIF_REPO:-/repo}
 cd "$(dirname "$0")"
 PAT=${1:-}
-ok=0; lost=0; skipped=0
+# optional sharding: SHARD=i/n handles every n-th stored change (run the shards on separate repository copies)
+SI=${SHARD%/*}; SN=${SHARD#*/}; [ -z "$SHARD" ] && { SI=0; SN=1; }
+ok=0; lost=0; skipped=0; idx=0
 for d in seeded/*${PAT}*/; do
+  idx=$((idx+1)); [ $((idx % SN)) = "$SI" ] || continue
   name=$(basename $d)
   expect=$(python3 -c "import json;m=json.load(open('$d/meta.json'));print('miss' if m['caught_by'].startswith('NOT CAUGHT') else 'caught')")
   checks=$(python3 -c "
